@@ -37,6 +37,9 @@ GROUPS = {
    [('copy_slice_is_model', 'copy_slice_eq'), ('copy_sample_is_model', 'copy_sample_eq'),
     ('get_subset_slice_axis_is_model', 'get_subset_key_slice_eq'), ('get_subset_spatial_axis_copies', 'get_subset_key_spatial_eq'),
     ('get_subset_sample_axis_is_model', 'get_subset_key_sample_eq')]),
+ 'extract': ('extract.py: the default ignore rules of MetaExtractor',
+   [('ignore_private_is_model', 'ignore_private_eq'), ('ignore_pixel_data_is_model', 'ignore_pixel_data_eq'),
+    ('ignore_overlay_data_is_model', 'ignore_overlay_data_eq'), ('ignore_color_lut_data_is_model', 'ignore_color_lut_data_eq')]),
  'cli': ('dcmstack_cli.py: the naming of output files in main',
    [('cli_out_name_is_model', 'cli_out_name_eq')]),
  'group': ('dcmstack.py: the placement step of parse_and_group',
@@ -56,7 +59,7 @@ GROUPS = {
     ('get_data_trim_is_model', 'get_data_trim_eq')]),
 }
 EXTRA = {'subset': 'variable [DecidableEq α]\n', 'filter': 'variable {ρ : Type}\n', 'group': 'variable {E V : Type} [DecidableEq E]\n'}
-OPENS = {'cli': 'Src Cli', 'group': 'Src Grp', 'orient': 'Src Orient', 'phoenix': 'Src Phx', 'header': 'Src Stk', 'stackadd': 'Src Stk', 'stack': 'Src Stk', 'data': 'Src Stk Wrap', 'wrapsplit': 'Src Wrap', 'wrapmerge': 'Src Wrap'}
+OPENS = {'extract': 'Src Ex', 'cli': 'Src Cli', 'group': 'Src Grp', 'orient': 'Src Orient', 'phoenix': 'Src Phx', 'header': 'Src Stk', 'stackadd': 'Src Stk', 'stack': 'Src Stk', 'data': 'Src Stk Wrap', 'wrapsplit': 'Src Wrap', 'wrapmerge': 'Src Wrap'}
 for grp, (srcfile, pairs) in GROUPS.items():
     mod = 'Code_' + grp
     sys.argv = ['x', 'C00', '/verif/lean/DcmVerif/Proofs/%s.lean' % mod, 'Src.', 'DcmVerif.Proofs.%s' % mod]
